@@ -66,6 +66,22 @@ func genC13(t *rapid.T) interface{} {
 		sc.Late = append(sc.Late, engine.Step{Op: "write", Text: txt})
 	}
 	c13Unterminate(t, sc)
+	// a few very long lines (beyond the 32 KiB chunk size of io.Copy-style loops)
+	if rapid.IntRange(0, 5).Draw(t, "hugewrites") == 0 {
+		left := rapid.IntRange(1, 3).Draw(t, "nhuge")
+		for si := range sc.Steps {
+			for bi := range sc.Steps[si].Par {
+				blk := sc.Steps[si].Par[bi]
+				for k := range blk {
+					if left > 0 && blk[k].Op == "write" && strings.HasSuffix(blk[k].Text, "\n") && rapid.Bool().Draw(t, "hugehere") {
+						n := rapid.IntRange(33000, 70000).Draw(t, "hugelen")
+						blk[k].Text = strings.TrimSuffix(blk[k].Text, "\n") + strings.Repeat("0123456789", n/10) + "\n"
+						left--
+					}
+				}
+			}
+		}
+	}
 	vstat.Excluded(excludedKnown)
 	return sc
 }
@@ -212,6 +228,12 @@ func runC13(ci interface{}) Result {
 			r.Classes = append(r.Classes, "write-after-delay")
 		}
 	}
+	for i := range tr.Writes[:inProgram] {
+		if len(tr.Writes[i].Text) > 32768 {
+			r.Classes = append(r.Classes, "write>32KiB")
+			break
+		}
+	}
 	repeated := false
 	for i := range tr.Writes[:inProgram] {
 		w := &tr.Writes[i]
@@ -224,7 +246,7 @@ func runC13(ci interface{}) Result {
 				repeated = true
 			}
 			if n > want || n < want-tail[w.Text]-pre[w.Text] {
-				r.Err, r.Kind = fmt.Errorf("Write(%q) reported success %d time(s) but its bytes occur %d time(s) in the output", w.Text, want, n), "count"
+				r.Err, r.Kind = fmt.Errorf("Write(%q) reported success %d time(s) but its bytes occur %d time(s) in the output", c13clip(w.Text), want, n), "count"
 				return r
 			}
 			if n == 0 || want > 1 {
@@ -240,24 +262,24 @@ func runC13(ci interface{}) Result {
 					}
 				}
 				if !inChunkStart {
-					r.Err, r.Kind = fmt.Errorf("Write(%q): its bytes do not start a line (preceded by %q)", w.Text, all[pos-1]), "position"
+					r.Err, r.Kind = fmt.Errorf("Write(%q): its bytes do not start a line (preceded by %q)", c13clip(w.Text), all[pos-1]), "position"
 					return r
 				}
 			}
 			ck := chunkOf(pos)
 			if auto && ck >= tr.ChunksAtWait {
-				r.Err, r.Kind = fmt.Errorf("Write(%q) succeeded but was emitted in chunk %d, after Wait had returned (%d chunks before)", w.Text, ck, tr.ChunksAtWait), "late"
+				r.Err, r.Kind = fmt.Errorf("Write(%q) succeeded but was emitted in chunk %d, after Wait had returned (%d chunks before)", c13clip(w.Text), ck, tr.ChunksAtWait), "late"
 				return r
 			}
 			ok = append(ok, placed{w, pos})
 		case errors.Is(w.Err, mpb.ErrDone) && w.N == 0:
 			errdone = true
 			if succ[w.Text] == 0 && n != 0 {
-				r.Err, r.Kind = fmt.Errorf("Write(%q) returned (0, ErrDone) but its bytes are in the output", w.Text), "errdone-emitted"
+				r.Err, r.Kind = fmt.Errorf("Write(%q) returned (0, ErrDone) but its bytes are in the output", c13clip(w.Text)), "errdone-emitted"
 				return r
 			}
 		default:
-			r.Err, r.Kind = fmt.Errorf("Write(%q) returned (%d, %v): neither success nor (0, ErrDone)", w.Text, w.N, w.Err), "result"
+			r.Err, r.Kind = fmt.Errorf("Write(%q) returned (%d, %v): neither success nor (0, ErrDone)", c13clip(w.Text), w.N, w.Err), "result"
 			return r
 		}
 	}
@@ -273,7 +295,7 @@ func runC13(ci interface{}) Result {
 	for i := range ok {
 		for j := range ok {
 			if ok[i].w.RetSeq < ok[j].w.InvSeq && ok[i].pos > ok[j].pos {
-				r.Err, r.Kind = fmt.Errorf("Write(%q) returned before Write(%q) was called but appears after it in the output", ok[i].w.Text, ok[j].w.Text), "order"
+				r.Err, r.Kind = fmt.Errorf("Write(%q) returned before Write(%q) was called but appears after it in the output", c13clip(ok[i].w.Text), c13clip(ok[j].w.Text)), "order"
 				return r
 			}
 		}
@@ -285,7 +307,7 @@ func runC13(ci interface{}) Result {
 			return r
 		}
 		if w.Text != "" && bytes.Contains(all, []byte(w.Text)) {
-			r.Err, r.Kind = fmt.Errorf("Write after Wait emitted %q", w.Text), "late-write"
+			r.Err, r.Kind = fmt.Errorf("Write after Wait emitted %q", c13clip(w.Text)), "late-write"
 			return r
 		}
 	}
@@ -343,4 +365,12 @@ func firstLineWith(all []byte, sub string) string {
 		}
 	}
 	return ""
+}
+
+// c13clip shortens a payload for messages.
+func c13clip(s string) string {
+	if len(s) > 90 {
+		return s[:60] + fmt.Sprintf("...(%d bytes)...", len(s)) + s[len(s)-10:]
+	}
+	return s
 }
